@@ -301,6 +301,8 @@ pub fn step_cc<N: Nd>(nd: &mut N, mask: u16, ch: u8) {
     let before = s;
     let d1 = nd.u8_le(127);
     let d2 = nd.u8_le(127);
+    #[cfg(not(kani))]
+    nd.capture(crate::attrib::Ctx::Nrpn { s, a, ch, d1, d2 });
     let out = s.feed(&cc(ch, d1, d2));
     check_msg_range(&out);
     let e = spec_cc(&mut a, ch, d1, d2);
@@ -311,9 +313,9 @@ pub fn step_cc<N: Nd>(nd: &mut N, mask: u16, ch: u8) {
     if let Some(m) = &out {
         check!(m.channel().get() == ch, "C15 C11 reported message carries the channel of the input");
     }
-    check!(out.is_some() == e.is_some(), "C11 reports exactly when controller 6/96/97 arrives with a complete number");
-    check!(same(&out, e), "C11 C10 reported message carries channel, number, registered flag, value and resolution prescribed");
-    check!(s == gen(&a), "C11 C15 C16 post-state is the state of the advanced observer (only the addressed channel changes)");
+    check!(out.is_some() == e.is_some(), "C11 C15 [conformance] reports exactly when controller 6/96/97 arrives with a complete number");
+    check!(same(&out, e), "C11 C15 [conformance] reported message carries channel, number, registered flag, value and resolution prescribed");
+    check!(s == gen(&a), "C11 C15 C16 [conformance] post-state is the state of the advanced observer (only the addressed channel changes)");
     witness!(nd, out.map_or(false, |m| m.is_14_bit()), "14-bit report");
     witness!(nd, out.map_or(false, |m| !m.is_14_bit() && m.data_type() == DataType::DataEntry), "7-bit report");
     witness!(nd, out.map_or(false, |m| m.data_type() == DataType::DataDecrement), "decrement report");
@@ -462,7 +464,7 @@ pub fn literal<N: Nd>(nd: &mut N, c1: u8, c2: u8) {
             let c = if kind == 0 { c1 } else { c2 };
             let out = s.feed(&cc(c, d1, d2));
             let e = spec_cc(&mut a, c, d1, d2);
-            check!(same(&out, e), "C11 C15 C17 literal history: output equals the observer's");
+            check!(same(&out, e), "C11 literal history: output equals the observer's");
             if out.is_some() {
                 reported += 1;
             }
